@@ -190,12 +190,27 @@ func openSeq(path string, rbuf int) (recordio.ReaderI, error) {
 }
 
 // rioSeqWord runs one word over {R,S} against the model. Returns a mismatch or "".
-func rioSeqWord(path string, rbuf int, m rioModel, word uint, n int) string {
+func rioSeqWord(path string, rbuf int, m rioModel, word uint, n int) (msg string) {
 	r, err := openSeq(path, rbuf)
 	if err != nil {
 		return "open sequential reader: " + err.Error()
 	}
 	defer r.Close()
+	// records are kept as they were handed out and looked at once more at the end: a record belongs to the caller once
+	// ReadNext has returned it, later calls must not change it
+	var kept [][]byte
+	var keptIdx []int
+	defer func() {
+		if msg != "" {
+			return
+		}
+		for j, g := range kept {
+			if !recEq(g, m.Recs[keptIdx[j]]) {
+				msg = fmt.Sprintf("record #%d as returned by ReadNext changed after later calls: now %s, written %s", keptIdx[j], recStr(g), recStr(m.Recs[keptIdx[j]]))
+				return
+			}
+		}
+	}()
 	for i := 0; i < n; i++ {
 		skip := word&(1<<uint(i)) != 0
 		if i < len(m.Recs) {
@@ -211,6 +226,7 @@ func rioSeqWord(path string, rbuf int, m rioModel, word uint, n int) string {
 				if !recEq(got, m.Recs[i]) {
 					return fmt.Sprintf("ReadNext #%d = %s want %s", i, recStr(got), recStr(m.Recs[i]))
 				}
+				kept, keptIdx = append(kept, got), append(keptIdx, i)
 			}
 		} else {
 			if skip {
